@@ -60,16 +60,16 @@ func (e *env) find(s sym) *val {
 type mutation int
 
 const (
-	mutNone            mutation = iota
-	mutFwdDropArgs              // a call site defined/compiled before its callee existed passes no arguments
-	mutFwdDropClosure           // a function first referenced before it existed loses its closure when defined
-	mutEarlyBind                // a call site keeps the definition that existed when the caller was defined (redefinition ignored)
-	mutCacheArgValue            // the update loop stores the VALUE of an evaluated sub-form: later evaluations reuse it
-	mutDefvarTwice              // Compile evaluates a defvar initial form twice
-	mutEvalMutatesData          // eval compiles the sub-forms of its (data) argument in place
-	mutPatchKeepsForms          // defun after a forward reference does not patch the placeholder: old call sites stay undefined
-	mutCompileDropsMain         // compiled code, evaluated again, skips the non-definition forms
-	mutSplitLambda              // a function that was forward-referenced has two lambda objects: callers created after its first definition never see a redefinition
+	mutNone             mutation = iota
+	mutFwdDropArgs               // a call site defined/compiled before its callee existed passes no arguments
+	mutFwdDropClosure            // a function first referenced before it existed loses its closure when defined
+	mutEarlyBind                 // a call site keeps the definition that existed when the caller was defined (redefinition ignored)
+	mutCacheArgValue             // the update loop stores the VALUE of an evaluated sub-form: later evaluations reuse it
+	mutDefvarTwice               // Compile evaluates a defvar initial form twice
+	mutEvalMutatesData           // eval compiles the sub-forms of its (data) argument in place
+	mutPatchKeepsForms           // defun after a forward reference does not patch the placeholder: old call sites stay undefined
+	mutCompileDropsMain          // compiled code, evaluated again, skips the non-definition forms
+	mutSplitLambda               // a function that was forward-referenced has two lambda objects: callers created after its first definition never see a redefinition
 )
 
 var allMutations = []mutation{mutFwdDropArgs, mutFwdDropClosure, mutEarlyBind, mutCacheArgValue, mutDefvarTwice, mutEvalMutatesData,
@@ -103,16 +103,16 @@ type refMachine struct {
 	mut     mutation
 
 	// instrumentation (classification of the case; mutants use it too)
-	fwdSites   map[*lst]bool        // call sites created before the callee existed
-	boundAt    map[*lst]*lambda     // mutEarlyBind: definition seen when the caller was defined
-	fwdNames   map[sym]bool         // functions referenced before they existed
-	fwdVars    map[sym]bool         // global variables referenced before they existed
-	cache      map[*lst]val         // mutCacheArgValue
-	edges      []fwdEdge            // forward edges in order of discovery
-	redefSeen  bool                 // a call reached a function whose definition was replaced after the caller was defined
-	definedGen map[sym]int          // how many times each function was defined
-	siteGen    map[*lst]int         // generation of the callee when the site was created
-	evalCount  map[int]int          // E steps per slot
+	fwdSites    map[*lst]bool    // call sites created before the callee existed
+	boundAt     map[*lst]*lambda // mutEarlyBind: definition seen when the caller was defined
+	fwdNames    map[sym]bool     // functions referenced before they existed
+	fwdVars     map[sym]bool     // global variables referenced before they existed
+	cache       map[*lst]val     // mutCacheArgValue
+	edges       []fwdEdge        // forward edges in order of discovery
+	redefSeen   bool             // a call reached a function whose definition was replaced after the caller was defined
+	definedGen  map[sym]int      // how many times each function was defined
+	siteGen     map[*lst]int     // generation of the callee when the site was created
+	evalCount   map[int]int      // E steps per slot
 	ranCompiled map[int]bool
 }
 
